@@ -84,6 +84,15 @@ impl BStats {
     }
 }
 
+/// Spends all but `left` units of the calling task's cooperative budget, so that the task is
+/// suspended (as the multi-threaded runtime may suspend it at any await) at the `left`+1-th
+/// budget-consuming await that follows: tokio mutex/channel/timer operations.
+pub async fn burn(left: u32) {
+    for _ in 0..(128u32.saturating_sub(left)) {
+        tokio::task::consume_budget().await;
+    }
+}
+
 pub fn run_block(seed: u64, faults: bool, st: &mut BStats) {
     let mut rng = Rng::new(seed);
     let start_h = *rng.pick(&[0u32, 1, 100, 800_000, u32::MAX - 50]);
@@ -174,7 +183,7 @@ pub fn run_block(seed: u64, faults: bool, st: &mut BStats) {
                 return;
             }
             // chaos phase
-            let choice = rng.weighted(&[6, 4, 4, 3, 3, 2, 3]);
+            let choice = rng.weighted(&[6, 4, 4, 3, 3, 2, 3, 3]);
             sig = mix(sig, choice as u64 | ((e.polls.len().min(3) as u64) << 4) | ((delayed.len().min(3) as u64) << 6) | (((e.told_max < e.height) as u64) << 8));
             match choice {
                 0 => {
@@ -244,6 +253,29 @@ pub fn run_block(seed: u64, faults: bool, st: &mut BStats) {
                 5 => {
                     drop(e);
                     tokio::time::sleep(Duration::from_millis(61_000)).await;
+                }
+                7 => {
+                    // two notifications handled at the same instant, the first one suspended
+                    // at its 1st..3rd await (what two runtime workers do to each other)
+                    if let Some(bw) = &bw {
+                        e.height = e.height.saturating_add(2);
+                        let h = e.height;
+                        let (first, second) = if rng.chance(1, 2) { (h.saturating_sub(1), h) } else { (h, h.saturating_sub(1)) };
+                        let left = rng.below(3) as u32;
+                        e.log.push(format!("pair first={first} (suspended at await {left}) second={second}"));
+                        e.told_max = e.told_max.max(h);
+                        local_evals.push(("R20a-preempt", left as u64 | (((first < second) as u64) << 2)));
+                        let b = bw.clone();
+                        tokio::spawn(async move {
+                            burn(left).await;
+                            b.new_block(&BlockAdded { height: first }).await
+                        });
+                        let b = bw.clone();
+                        tokio::spawn(async move { b.new_block(&BlockAdded { height: second }).await });
+                        if rng.chance(1, 2) && !e.polls.is_empty() {
+                            answer(&mut e, 0, false);
+                        }
+                    }
                 }
                 _ => {
                     drop(e);
